@@ -27,7 +27,7 @@ prop("C04", "inbound QoS 0/1/2 flows", "exploration",
      "re-used as a retransmission) / PUBREL (known, unknown, repeated) fed to a connected BaseClient with handler on / off / "
      "registered half-way, generated read chunking; the observed timeline of handler entries/exits and written acks must equal "
      "the reference automaton's. Non-trivial = the sequence releases a stored QoS2 message, retransmits a QoS2 PUBLISH or "
-     "repeats a PUBREL; distinct = FNV-64 of the case JSON.",
+     "repeats a PUBREL; distinct = FNV-64 of the case JSON. Since rounds 3-5 the handler may overwrite every field of the message it owns, call back into the client, or be registered in the middle; outbound QoS2 publishes use the inbound id set; the first packets may sit in the CONNACK's buffer; the peer may half-close right after its last packet, the EOF arriving after or together with the last bytes. Topics up to 90 levels, muxes of up to 70 handlers, handlers that register further handlers or dispatch nested messages through their own mux.",
      [dict(tests="^TestVerifC04_Flows$", checks_quick=6000, checks_thorough=180000, shards=12,
            fuzz=[dict(target="FuzzVerifC04", time="180s", workers=8)]),
       dict(tests="^TestVerifC04_Flows$", race=True, checks_quick=800, checks_thorough=9000, shards=4)],
@@ -63,7 +63,7 @@ prop("C06", "arbitrary broker bytes never crash the client", "exploration",
      "too few / reserved codes, other ack kinds carrying a pending id), then close: no goroutine may panic and every call returns. "
      "A process death (panic in a library goroutine, runtime out-of-memory under an 8 GB address-space cap) is a violation "
      "with the case in flight as replay. Non-trivial = parser input with >= 1 content byte / header with >= 1 length byte / "
-     ">= 1 valid packet before the malformed one; distinct = FNV-64 of the case JSON.",
+     ">= 1 valid packet before the malformed one; distinct = FNV-64 of the case JSON. The connected target also runs without a handler, with a handler registered in the middle of the prefix, with an application write parked inside Transport.Write when the malformed packet arrives, and with over-long length fields followed by silence instead of a close; AllocBound reads legal bodies of 1..255 MiB.",
      [dict(tests="^TestVerifC06_Parsers$", checks_quick=30000, checks_thorough=900000, shards=4,
            fuzz=[dict(target="FuzzVerifC06Parsers", time="180s", workers=6)]),
       dict(tests="^TestVerifC06_ReadPacket$", checks_quick=8000, checks_thorough=120000, shards=6, as_limit_gb=8,
@@ -81,7 +81,7 @@ prop("C20", "private copies behind ServeMux / ServeAsync", "exploration",
      "dispatcher returned and the caller overwrote its own message. Oracle: each handler's deep snapshot on entry equals the "
      "dispatched message in all six fields, the caller's message is unchanged after synchronous dispatch, no payload backing "
      "array is shared; also run under the race detector. Non-trivial = >= 2 matching handlers with >= 1 in-place payload "
-     "mutation, or an async dispatch of a non-empty payload; distinct = FNV-64 of the case JSON.",
+     "mutation, or an async dispatch of a non-empty payload; distinct = FNV-64 of the case JSON. Payloads may have spare capacity, appended bytes are handler specific, ServeAsync may sit directly in front of a ServeMux, a handler may be an application type that embeds *ServeMux; every compared array is kept reachable.",
      [dict(tests="^TestVerifC20_Copies$", checks_quick=20000, checks_thorough=600000, shards=6),
       dict(tests="^TestVerifC20_Copies$", race=True, checks_quick=2000, checks_thorough=90000, shards=6)])
 
@@ -176,7 +176,7 @@ prop("C01", "no accepted QoS>=1 publish / subscribe / unsubscribe is lost", "fau
      "connection not cut at that packet; a client idle for 3 s with work undone on a reachable broker is a violation (stuck "
      "detector), a budget hit while still progressing is inconclusive. Non-trivial = a fault fired while >= 1 accepted QoS>=1 "
      "request was unacknowledged, or a request was submitted before the first connection / during an outage; distinct = FNV-64 "
-     "of the case JSON." + ENUMRULE,
+     "of the case JSON. The shared E4 generator also draws: DirectlyPublishQoS0, transport flavours, request-scoped submit contexts, callbacks (OnError, ConnState) that look at the client, a re-used Subscription buffer, a broker repeating PUBREC on resumption, dial errors carrying a context error; a runner blocked in a client call with nothing happening for 60 s ends as Stuck." + ENUMRULE,
      [dict(tests="^TestVerifC01_CutEnum$", exhaustive_once=True),
       dict(tests="^TestVerifC01_NoLoss$", checks_quick=2500, checks_thorough=36000, shards=12),
       dict(tests="^TestVerifC01_ReconnectRace$", checks_quick=2000, checks_thorough=30000, shards=8, shards_quick=2)],
@@ -199,7 +199,7 @@ prop("C03", "submission order on the wire, also when retransmitted", "fault_enum
      E4RULE + "C03: one submitting goroutine, queued publishing mode. Oracle: per connection the PUBLISH packets of different messages "
      "are in submission order; over the run the first emissions of requests (PUBLISH/SUBSCRIBE/UNSUBSCRIBE, delivered or lost) "
      "are in submission order; first deliveries of QoS>=1 messages are in submission order. Non-trivial = >= 2 QoS>=1 requests "
-     "pending at a fired fault; distinct = FNV-64 of the case JSON." + ENUMRULE,
+     "pending at a fired fault; distinct = FNV-64 of the case JSON. One case in fifteen is a burst: a few requests are carried out, then 64..130 more are submitted during an outage." + ENUMRULE,
      [dict(tests="^TestVerifC03_CutEnum$", exhaustive_once=True),
       dict(tests="^TestVerifC03_Order$", checks_quick=2500, checks_thorough=36000, shards=16)],
      assumptions=["DirectlyPublishQoS0 off (the default mode the property is about)", "connections fail only by closing / refusal / dial errors"])
@@ -259,7 +259,7 @@ prop("C18", "with a response timeout a silent broker cannot stall the client", "
      "receives an error for which errors.As(**RequestTimeoutError) holds, the client closes that transport itself, a new dial "
      "follows, and at quiescence every accepted request is acknowledged; a client idle for 3 s on a live connection with the "
      "request unacknowledged is a violation. No upper time bound is asserted. Non-trivial = >= 1 acknowledgement was dropped; "
-     "distinct = FNV-64 of the case JSON.",
+     "distinct = FNV-64 of the case JSON. One class has a peer that stops reading as well (fault stall: a packet is taken and never answered, later writes block) with the keep-alive as a second writer; one class assigns ResponseTimeout only after Connect returned.",
      [dict(tests="^TestVerifC18_ResponseTimeout$", checks_quick=1200, checks_thorough=18000, shards=16)])
 
 prop("C09", "reconnect lifecycle", "fault_enumeration",
@@ -273,7 +273,7 @@ prop("C09", "reconnect lifecycle", "fault_enumeration",
      "connection starts with exactly one CONNECT whose decoded fields equal the options, (4) after the stop no dial that started "
      "later yields a transport, none starts once the loop goroutine is gone, Disconnect returns and the loop goroutine has "
      "exited, Connect reports the cancelled context, (5) a redial follows every unexpected end (stuck detector). Non-trivial = >= 2 "
-     "consecutive failures followed by a success, or a stop in a phase other than connected; distinct = FNV-64 of the case JSON.",
+     "consecutive failures followed by a success, or a stop in a phase other than connected; distinct = FNV-64 of the case JSON. Dial errors may carry a context error and may take 1.5..6 ms to fail; client ids: normal, empty, 300 bytes, non-ASCII; ping intervals of seconds must not change the CONNECT; refusing CONNACKs use codes 1..5 and reserved ones; Disconnect may be called from the message handler or with a context that has already ended; Connect's context may end inside the Active callback of the first successful connection (the connection must stay supervised).",
      [dict(tests="^TestVerifC09_Lifecycle$", checks_quick=120, checks_thorough=2100, shards=16, shards_quick=4)],
      assumptions=["the Dialer honours its context (like net.Dialer); the harness releases a held dial after the stop event",
                   "an attempt whose accepting CONNACK was followed at once by a link failure may count as success or failure (lower bound uses the smaller wait)",
@@ -290,7 +290,7 @@ prop("C16", "ConnState, Err() and Done() tell the truth", "fault_enumeration",
      "chance, then samples: a healthy connection has Err()==nil and Done() open; after a graceful Disconnect of a healthy "
      "connection Err()==nil and Done() closed; per connection Active/Closed/Disconnected at most once, Closed with an error. "
      "Non-trivial = >= 2 racing endings or endings racing Connect (i); >= 2 managed connections with a sample (ii); distinct = "
-     "FNV-64 of the case JSON.",
+     "FNV-64 of the case JSON. Endings include an inconsistent SUBACK and reserved CONNACK codes; in the reconnect leg the transports come in flavours (closure reported as net.ErrClosed, second Close failing, CloseWrite, slow Close) and the application's callbacks look at the client.",
      [dict(tests="^TestVerifC16_Base$", checks_quick=6000, checks_thorough=180000, shards=8),
       dict(tests="^TestVerifC16_Reconnect$", checks_quick=500, checks_thorough=12000, shards=8, shards_quick=2)],
      assumptions=["no order between Active and Closed is asserted (Connect can lose the race when the peer closes right after CONNACK)",
@@ -304,7 +304,7 @@ prop("C11", "every blocking call returns on cancel or connection end", "fault_en
      "x phase {dialling (held dialler), connecting (CONNACK withheld), waiting to redial} x {cancel, deadline}. Oracle: every call "
      "returns (20 s bound, goroutine dump on miss); context causes with the link up: errors.Is(err, ctx.Err()); link-end causes: "
      "non-nil error, Done() closed and no goroutine with a (*BaseClient).serve / Connect.func1 frame left. Non-trivial = every "
-     "cell except Disconnect x cause-before-call; distinct = distinct cells + distinct combinations (FNV-64 of the case JSON).",
+     "cell except Disconnect x cause-before-call; distinct = distinct cells + distinct combinations (FNV-64 of the case JSON). Causes include Disconnect (with a short context of its own) and contexts cancelled with a cause; the cause call itself is guarded (a Close that never returns is a verdict); reconnect grid phases also cover a dialler that ignores its context, a CONNECT write that blocks and an established connection with a 25 s ping interval; Liveness polls Done/Err and takes write locks while inbound QoS2 traffic flows.",
      [dict(tests="^TestVerifC11_Grid$", exhaustive_once=True),
       dict(tests="^TestVerifC11_Combo$", checks_quick=3000, checks_thorough=90000, shards=8),
       dict(tests="^TestVerifC11_Liveness$", checks_quick=60, checks_thorough=1500, shards=8, shards_quick=2),
@@ -324,7 +324,7 @@ prop("C10", "no data races, packets never interleave on the wire", "exploration"
      "violation, the case in flight is the replay; (2) no two Transport.Write calls overlap, the strict framer decodes the whole "
      "client->broker stream of every connection, self-describing payloads verify, first packet of every connection is CONNECT. "
      "Non-trivial = >= 2 library calls overlapped in time (measured with enter/exit counters) and, for (ii), >= 2 connections; "
-     "distinct = FNV-64 of the case JSON.",
+     "distinct = FNV-64 of the case JSON. The reconnect variant also runs with DirectlyPublishQoS0; the base variant may have a concurrent Disconnect instead of Close, and 3 or 7 other, independent clients connecting at the same moment.",
      [dict(tests="^TestVerifC10_Base$", race=True, checks_quick=1500, checks_thorough=45000, shards=8),
       dict(tests="^TestVerifC10_Reconnect$", race=True, checks_quick=1500, checks_thorough=45000, shards=8, shards_quick=2)],
      assumptions=["schedules are sampled (generated yields, GOMAXPROCS, the transport's own yields); absence of races cannot be shown",
